@@ -6,7 +6,8 @@ META = META_ALL["C13"]
 
 
 def run(ctx):
-    return hp.check(ctx, "C13", META["level"], META["rule"], META["assumptions"])
+    return hp.check(ctx, "C13", META["level"], META["rule"], META["assumptions"],
+                    extra_explore=hp.c13_two_remotes_explore)
 
 
 def replay(ctx, path):
